@@ -120,4 +120,14 @@ CLAIMED = {
              'FloatLoops.v + its exhaustive correspondence, py2coq, harness.',
         technique='machine-checked Coq proof: exhaustive vm_compute over the finite stated domain with a bit-exact PrimFloat model, and '
                   'theorems over Q about generated definitions'),
+    'C15': dict(
+        text='Partial. The Polygon2D clean-up code is translated (the remove_colinear scan with its skip / first_skip / seam patch '
+             'included) and run bit-for-bit against the implementation on decorated loops. Proved for every input: '
+             'remove_duplicate_vertices is exactly the filter "not within tolerance of the cyclic predecessor", its result is a '
+             'sub-list (original vertices, original order); every vertex returned by remove_colinear_vertices is an input vertex. '
+             'That all exactly-collinear / duplicated points are removed, all genuine corners kept for every rotation of the list and '
+             'both orientations, area/orientation preserved and a second pass changes nothing (as a cyclic sequence) is searched '
+             'on Polygon2D, Face3D and Polyline2D/3D.',
+        note='Partial: corner preservation / idempotence are validated, not proved. Trusted: Coq kernel, py2coq, harness.',
+        technique=T_Q),
 }
